@@ -12,6 +12,7 @@ import DDProofs.LexComments
 import DDProofs.LexNeeds
 import DDProofs.ParseBad
 import DDProofs.ParseOpen
+import DDProofs.LexOpen
 import DDProps.C05
 open Std
 namespace DD
@@ -122,6 +123,10 @@ example : spellWith { choice := fun _ => 2 } exToks =
   decide
 example : layoutOk {} exToks = true ∧ layoutOk { choice := fun _ => 1 } exToks = true ∧
     layoutOk { choice := fun _ => 2 } exToks = true := by decide
+
+/-- one space after every token: EVERY choice function `ch` of spellings is read back -/
+example (ch : Nat → Nat) : tokenize (spellWith { choice := ch } exToks) = exToks :=
+  C05_tokenize_spellWith_spaced _ _ (by decide) ⟨rfl, rfl, fun _ _ => ⟨rfl, .sp, [], rfl, rfl⟩⟩
 
 /-- no blank at all, spellings mixed by position -/
 example : spellWith { choice := fun i => i + 1, gap := fun _ => [] } exToks =
@@ -290,6 +295,12 @@ theorem C05_parse_text_open_any_spelling (ex : Ast → Nat) (t : Ast) (hwf : t.W
     (hL : layoutOk L (printTop ex t) = true) :
     parse (tokenize (spellWith L (printTop ex t))) = some t := by
   rw [tokenize_spellWith L _ hL, parse_printTop ex t hwf]
+
+/-- … with a blank after every token: no side condition besides lexable names and numbers -/
+theorem C05_parse_text_open_spaced (ex : Ast → Nat) (t : Ast) (hwf : t.WF) (hlex : t.LexWF) (L : Layout)
+    (hL : L.spaced (printTop ex t).length) :
+    parse (tokenize (spellWith L (printTop ex t))) = some t :=
+  C05_parse_text_open_any_spelling ex t hwf L (layoutOk_spaced L _ (lexOk_printTop ex t hlex) hL)
 
 /-- non-vacuity: open binders in right-operand and `~` position, nested, doubled parentheses -/
 def exOpen : Ast :=
